@@ -166,6 +166,18 @@ fn toy_consist(c: &Value) -> anyhow::Result<Consist> {
     Ok(con)
 }
 
+/// mass [kg] a unit descriptor gives its locomotive: "parts" (baseline + ballast + the components its kind has) or "mass"
+fn unit_mass(u: &Value) -> Value {
+    match u.get("parts").filter(|x| x.is_object()) {
+        Some(p) => {
+            let g = |k: &str| p.get(k).and_then(|x| x.as_i64()).unwrap_or(0);
+            let comps = if u.get("kind").and_then(|x| x.as_str()) == Some("bel") { g("res") } else { g("fc") + g("gen") };
+            json!(g("base") + g("ball") + comps)
+        }
+        None => json!(u.get("mass").and_then(|x| x.as_i64()).unwrap_or(1024)),
+    }
+}
+
 /// number of battery-equipped units of a descriptor's unit list
 fn nres_of(units: &[Value]) -> usize {
     units.iter().filter(|u| matches!(u.get("kind").and_then(|x| x.as_str()), Some("bel") | Some("hybrid"))).count()
@@ -369,6 +381,9 @@ fn run_ss(desc: &Value, tr: &mut Tracer) -> anyhow::Result<Option<SpeedLimitTrai
         "links":hl,"curves":curves_of(&simv, SO),"cars":cars,
         "override": desc.get("train_mass").and_then(|x| x.as_i64()).unwrap_or(-1),
         "con_mass": q.q(con_mass, 1.0), "towed": q.q(towed, 1.0),
+        // the locomotives' masses as the descriptor gives them (explicit mass, or baseline + ballast + components when the
+        // unit is described by its parts only): the spec sums them itself
+        "umass": Value::Array(ga(&desc["consist"], "units").iter().map(unit_mass).collect()),
         "len": q.q(sim.state.length.value, SO),
         "tt": tq, "tv": vq, "exact": q.exact, "t0sync": t0sync, "v0sync": v0sync || vq[0] == 0,
         // the make-up the run was given (descriptor), whether it was installed through set_loco_vec after Consist::new,
@@ -718,7 +733,7 @@ fn run_sl(desc: &Value, tr: &mut Tracer) -> anyhow::Result<()> {
         .map(|(k, l)| json!({"idx": k + 1, "len": qi(gf(l, "len") / os, LO), "el": []}))
         .collect();
     tr.emit(json!({"ev":"Hdr","mode":"sl","st":LT as i64,"sv":LV as i64,"so":LO as i64,
-        "links":hl,"curves":[],"cars":[],"override":-1,"con_mass":0,"towed":0,
+        "links":hl,"curves":[],"cars":[],"override":-1,"con_mass":0,"towed":0,"umass":[],
         "len": qi(sim.state.length.value, LO),"tt":[],"tv":[],"exact":false,"t0sync":true,"v0sync":true,"days":days,
         "units": kinds_of(&sim.loco_con), "res": "strap", "relist": false, "nolim": false, "t0": iv(desc, "t0", 0)}));
     tr.emit(sl_step_json(0, &sim.state, &sim.loco_con));
@@ -851,6 +866,18 @@ fn gen_ss(r: &mut Rng, neg: bool, hot: bool) -> Value {
         })
         .collect();
     let mut units = units;
+    // a quarter of the toy units are described by their parts only (locomotive-level mass unknown, mass = derived mass)
+    for u in units.iter_mut() {
+        if r.chance(1, 4) {
+            let bel = u["kind"] == "bel";
+            u.as_object_mut().unwrap().remove("mass");
+            u["parts"] = if bel {
+                json!({"base": *r.pick(&[256i64, 512]), "ball": *r.pick(&[0i64, 128]), "res": *r.pick(&[128i64, 256])})
+            } else {
+                json!({"base": *r.pick(&[256i64, 512]), "ball": *r.pick(&[0i64, 128]), "fc": *r.pick(&[64i64, 128]), "gen": *r.pick(&[32i64, 64])})
+            };
+        }
+    }
     if !hot && r.chance(1, 4) {
         // a hybrid next to (or instead of) the toy units: battery energy then comes from two kinds of locomotive
         if units.len() >= 3 || r.chance(1, 3) {
